@@ -27,9 +27,12 @@ class Cz:
     eps = timedelta(0)
     iso = False
     numeric = False
+    decomposed = False
 
     def ev(self, e, Event):
         data = {"v": e["d"]} if e["d"] != "c" else {"v": "a", "extra": [1]}      # "c" equals "a" except for one more key
+        if self.decomposed and e["d"] == "b":
+            data = {"v": "cafe\u0301 \u2126 b"}          # text that is not in composed normal form: stored and compared as written
         if self.numeric and e["d"] == "a":
             # equal data written with different number types (1 == 1.0 == True): equality of data is equality of VALUES
             self._k = getattr(self, "_k", 0) + 1
@@ -49,7 +52,7 @@ class Cz:
         q1, r1 = divmod(e.timestamp - self.c.base, half)
         q2, r2 = divmod(e.duration - self.eps, half)
         z = timedelta(0)
-        out = {"ts": q1 if r1 == z else -99999, "dur": q2 if r2 == z else -99999, "d": "c" if "extra" in e.data else ("m" if "title" in e.data else ("n" if "url" in e.data else ("a" if not isinstance(e.data.get("v"), str) and e.data.get("v") == 1 else str(e.data.get("v", "?")))))}
+        out = {"ts": q1 if r1 == z else -99999, "dur": q2 if r2 == z else -99999, "d": "c" if "extra" in e.data else ("m" if "title" in e.data else ("n" if "url" in e.data else ("a" if not isinstance(e.data.get("v"), str) and e.data.get("v") == 1 else ("b" if e.data.get("v") == "cafe\u0301 \u2126 b" else str(e.data.get("v", "?"))[:12].encode("ascii", "replace").decode()))))}
         if with_id:
             out["id"] = e.id if isinstance(e.id, int) else -2
         return out
@@ -146,6 +149,7 @@ def run_loop(ds, kind, rnd, uniq, stream, p2, decoy=None):
     cz.eps = timedelta(microseconds=rnd.choice([0, 0, 0, 4, 996, 500, 123]))
     cz.iso = rnd.random() < 0.4
     cz.numeric = rnd.random() < 0.3
+    cz.decomposed = rnd.random() < 0.3
     bn, sn = "hb-%s" % uniq, "hbspect-%s" % uniq
     if rnd.random() < 0.4:
         sn = bn.swapcase() if bn.swapcase() != bn else bn.upper()      # another bucket whose id differs only in letter case
